@@ -20,16 +20,17 @@ import (
 )
 
 type scenario struct {
-	IntervalMs  int    `json:"ping_interval_ms"`
-	TimeoutMs   int    `json:"ping_timeout_ms"`
-	AnswerK     int    `json:"pings_answered_in_time"` // -1: all
-	OkDelay     string `json:"delay_of_timely_pongs"`
-	Late        string `json:"after_k"` // "silent" | "late+1ms" | "late3x"
-	Traffic     bool   `json:"concurrent_stream_traffic"`
-	BrokerPings int    `json:"broker_pings"`
-	PingBurst   int    `json:"broker_ping_burst_while_pongs_are_slow,omitempty"`
-	CloseFails  bool   `json:"transport_close_reports_an_error,omitempty"`
-	Abandoned   int    `json:"requests_abandoned_before_their_late_reply,omitempty"`
+	IntervalMs   int    `json:"ping_interval_ms"`
+	TimeoutMs    int    `json:"ping_timeout_ms"`
+	AnswerK      int    `json:"pings_answered_in_time"` // -1: all
+	OkDelay      string `json:"delay_of_timely_pongs"`
+	Late         string `json:"after_k"` // "silent" | "late+1ms" | "late3x"
+	Traffic      bool   `json:"concurrent_stream_traffic"`
+	BrokerPings  int    `json:"broker_pings"`
+	PingBurst    int    `json:"broker_ping_burst_while_pongs_are_slow,omitempty"`
+	CloseFails   bool   `json:"transport_close_reports_an_error,omitempty"`
+	PongWriteErr bool   `json:"one_pong_write_fails_transiently,omitempty"`
+	Abandoned    int    `json:"requests_abandoned_before_their_late_reply,omitempty"`
 }
 
 var durations = []int{50, 200, 1000, 1500, 10000, 30000}
@@ -48,6 +49,7 @@ func gen(c *vrun.Case) scenario {
 		s.PingBurst = 12 + r.Intn(20)
 	}
 	s.CloseFails = r.Intn(3) == 0
+	s.PongWriteErr = s.BrokerPings > 0 && r.Intn(2) == 0
 	if r.Intn(3) == 0 {
 		s.Abandoned = 1 + r.Intn(3)
 	}
@@ -59,7 +61,7 @@ const slack = time.Millisecond
 func TestC15Keepalive(t *testing.T) {
 	e := vrun.LoadEnv()
 	meta := vrun.Meta{Property: "C15", Workload: "TestC15Keepalive", Total: e.Pick(200, 50000),
-		Rule: "virtual time (testing/synctest): (interval, timeout) drawn from {50ms,200ms,1s,1.5s,10s,30s}^2; the broker answers the first k in {0,1,2,5,20,all} pings in time (pong delay 0, timeout/2 or timeout-1ms) and then falls silent or answers late (timeout+1ms, 3*timeout); with or without concurrent upstream traffic (the silent broker withholds its acks as well); 0/3/10 broker-originated pings interleaved, in a third of the cases 1-3 application requests whose caller gives up before the broker's (late) reply, in a third a transport whose Close reports an error, in a third of the cases also a burst of 12-31 broker pings at once while the client's pong writes take 5 ms each. Oracle on the virtual clock: disconnect notification no later than interval + timeout + 1 ms after the broker's last timely message, AND no later than timeout + 1 ms after the first ping that is not answered in time reached the broker, and a new dial; no disconnect and no redial over 40 intervals while every pong is in time; every broker ping answered by a pong with the same request id; announced interval/timeout = configured values truncated to whole seconds. non-trivial = at least 2 client pings observed; distinct = scenario tuple",
+		Rule: "virtual time (testing/synctest): (interval, timeout) drawn from {50ms,200ms,1s,1.5s,10s,30s}^2; the broker answers the first k in {0,1,2,5,20,all} pings in time (pong delay 0, timeout/2 or timeout-1ms) and then falls silent or answers late (timeout+1ms, 3*timeout); with or without concurrent upstream traffic (the silent broker withholds its acks as well); 0/3/10 broker-originated pings interleaved (in half of those cases the write of the first pong fails once while the link stays up), in a third of the cases 1-3 application requests whose caller gives up before the broker's (late) reply, in a third a transport whose Close reports an error, in a third of the cases also a burst of 12-31 broker pings at once while the client's pong writes take 5 ms each. Oracle on the virtual clock: disconnect notification no later than interval + timeout + 1 ms after the broker's last timely message, AND no later than timeout + 1 ms after the first ping that is not answered in time reached the broker, and a new dial; no disconnect and no redial over 40 intervals while every pong is in time; every broker ping answered by a pong with the same request id; announced interval/timeout = configured values truncated to whole seconds. non-trivial = at least 2 client pings observed; distinct = scenario tuple",
 		Assumptions: []string{"scheduling slack is 1 ms of virtual time (inside a bubble time only advances when every goroutine is blocked)",
 			"'silence' starts with the first ping that does not get its pong within the timeout; the bound is measured from that ping's arrival at the broker"}}
 	vrun.Loop(t, meta, 0, func(c *vrun.Case) vrun.Result {
@@ -193,6 +195,10 @@ func run(s scenario) vrun.Result {
 	if s.CloseFails {
 		// the transport's Close reports an error (after closing): a silent peer never completes a closing handshake
 		w.Net.CloseFails = "always"
+	}
+	if s.PongWriteErr {
+		// the write of the FIRST pong fails once (the link stays up): later broker pings still have to be answered
+		w.Net.TransientWriteError = func(class string, ord int) bool { return class == "Pong" && ord == 1 }
 	}
 	if s.PingBurst > 0 {
 		// the client's pong writes take 5 ms (virtual) each: a burst of broker pings piles up behind the pong writer
@@ -410,10 +416,22 @@ func run(s scenario) vrun.Result {
 		deadAt = dAt
 	}
 	_ = deadAt
+	// a pong whose transport write failed (transient error injected by the scenario) was not lost by the client
+	writeFailed := map[uint32]bool{}
+	for _, l := range w.Net.Links() {
+		for _, rc := range l.Log() {
+			if pg, ok := rc.Msg.(*message.Pong); ok && rc.Dir == memnet.C2S && !rc.OK {
+				writeFailed[uint32(pg.RequestID)] = true
+			}
+		}
+	}
 	answered := 0
 	for _, id := range ids {
 		if pongs[id] == 1 {
 			answered++
+			continue
+		}
+		if writeFailed[id] && pongs[id] == 0 {
 			continue
 		}
 		if fb != nil {
@@ -421,7 +439,7 @@ func run(s scenario) vrun.Result {
 		}
 		return finish(vrun.Violation("a broker ping was not answered by exactly one pong with the same request id", "broker-ping-unanswered", map[string]any{"id": id, "pongs": pongs[id]}))
 	}
-	r := vrun.Hold(fmt.Sprintf("%d|%d|%d|%s|%s|%v|%d|%d|%v|%d", s.IntervalMs, s.TimeoutMs, s.AnswerK, s.OkDelay, s.Late, s.Traffic, s.BrokerPings, s.PingBurst, s.CloseFails, s.Abandoned), len(l1) >= 2)
+	r := vrun.Hold(fmt.Sprintf("%d|%d|%d|%s|%s|%v|%d|%d|%v|%d|%v", s.IntervalMs, s.TimeoutMs, s.AnswerK, s.OkDelay, s.Late, s.Traffic, s.BrokerPings, s.PingBurst, s.CloseFails, s.Abandoned, s.PongWriteErr), len(l1) >= 2)
 	r.Stat("client_pings_observed", int64(len(ps)))
 	r.Stat("observation_ping_gaps_longer_than_one_interval", int64(cadenceGaps))
 	r.Stat("broker_pings_answered", int64(answered))
